@@ -22,6 +22,7 @@ import (
 	"go/ast"
 	"go/printer"
 	"go/token"
+	"os"
 	"path/filepath"
 	"sort"
 	"strconv"
@@ -653,7 +654,11 @@ func (g *guardCtx) analyse(fd *ast.FuncDecl) guardPat {
 						}
 						pat.Kind = "callerIs"
 						pat.Impl = g.recvT
-						pat.Specific = callerIsSet(h)
+						set, shapeOK := callerIsSet(h)
+						pat.Specific = set
+						if !shapeOK {
+							pat.Kind = "callerIs?"
+						}
 						return pat
 					}
 				}
@@ -854,26 +859,47 @@ func (g *guardCtx) child(h *ast.FuncDecl, call *ast.CallExpr) *guardCtx {
 	return &guardCtx{l: g.l, pkg: g.pkg, recvT: g.recvT, depth: g.depth + 1, params: ps}
 }
 
-// callerIsSet: the helper must consist of `if t.CurrentCaller() != constant.X.Address().String() { return err }; return nil`
-func callerIsSet(h *ast.FuncDecl) []string {
+// callerIsSet: the helper must consist of `if t.CurrentCaller() != constant.X.Address().String() { return err }; return nil`.
+// A helper of any other shape is not a fatal error of the translator: the methods that rely on it get the
+// guard kind "callerIs?" - which the model does not classify, so that the obligation surface_classified
+// fails by name - and the rest of the table is still produced, so that the search for a failing call can run.
+func callerIsSet(h *ast.FuncDecl) ([]string, bool) {
 	var out []string
-	if h.Body == nil || len(h.Body.List) != 2 {
-		fatalf("surface: %s: unrecognised shape of the caller check helper", h.Name.Name)
+	ok := true
+	warn := func(f string, a ...interface{}) {
+		ok = false
+		fmt.Fprintf(os.Stderr, "extract: WARNING surface: "+f+"\n", a...)
 	}
-	is, ok := h.Body.List[0].(*ast.IfStmt)
-	if !ok || !endsWithReturn(is.Body) {
-		fatalf("surface: %s: unrecognised shape of the caller check helper", h.Name.Name)
+	if h.Body == nil {
+		warn("%s: caller check helper without body", h.Name.Name)
+		return nil, false
 	}
-	s, ok := callerCmp(is.Cond)
-	if !ok || !strings.HasPrefix(s, "CurrentCaller!=@") {
-		fatalf("surface: %s: unrecognised comparison in the caller check helper (%s)", h.Name.Name, s)
+	// every comparison of CurrentCaller with a contract address constant found anywhere in the helper
+	ast.Inspect(h.Body, func(n ast.Node) bool {
+		if be, isBin := n.(*ast.BinaryExpr); isBin {
+			if s, isCmp := callerCmp(be); isCmp && strings.HasPrefix(s, "CurrentCaller!=@") {
+				out = append(out, strings.TrimPrefix(s, "CurrentCaller!=@"))
+			}
+		}
+		return true
+	})
+	if len(h.Body.List) != 2 {
+		warn("%s: unrecognised shape of the caller check helper (%d statements)", h.Name.Name, len(h.Body.List))
+		return out, false
 	}
-	out = append(out, strings.TrimPrefix(s, "CurrentCaller!=@"))
-	rs, ok := h.Body.List[1].(*ast.ReturnStmt)
-	if !ok || len(rs.Results) != 1 || exprString(rs.Results[0]) != "nil" {
-		fatalf("surface: %s: caller check helper does not end with return nil", h.Name.Name)
+	is, isIf := h.Body.List[0].(*ast.IfStmt)
+	if !isIf || !endsWithReturn(is.Body) {
+		warn("%s: unrecognised shape of the caller check helper", h.Name.Name)
+		return out, false
 	}
-	return out
+	if s, isCmp := callerCmp(is.Cond); !isCmp || !strings.HasPrefix(s, "CurrentCaller!=@") {
+		warn("%s: unrecognised comparison in the caller check helper (%s)", h.Name.Name, s)
+	}
+	rs, isRet := h.Body.List[1].(*ast.ReturnStmt)
+	if !isRet || len(rs.Results) != 1 || exprString(rs.Results[0]) != "nil" {
+		warn("%s: caller check helper does not end with return nil", h.Name.Name)
+	}
+	return out, ok
 }
 
 // ---------------------------------------------------------------------------------------
